@@ -6,6 +6,7 @@ import (
 	"path/filepath"
 	"sort"
 	"strings"
+	"time"
 	"unicode"
 	"unicode/utf8"
 
@@ -248,4 +249,18 @@ func nameCases(c *lib.Ctx, w *world) ([]rec, error) {
 	return out, nil
 }
 
-func modelCheck(c *lib.Ctx) error { return nil }
+// modelCheck runs MCComplete: the acceptance predicates hold on the code-shaped model of completion.
+func modelCheck(c *lib.Ctx) error {
+	n := c.Pick(2, 3)
+	cfg := fmt.Sprintf("CONSTANT MaxLen = %d\nINIT Init\nNEXT Next\nINVARIANT Theorem\n", n)
+	r, err := c.TLC("MCComplete", lib.TLCRun{Dir: c.SpecDir("StringLit"), Module: "MCComplete", Workers: 4, Timeout: 12 * time.Minute,
+		Files: map[string][]byte{"MCComplete.cfg": []byte(cfg)}})
+	if err != nil {
+		return err
+	}
+	if r.ErrKind != "" {
+		return lib.Infra("the design theorem of Complete fails in the model itself: %s\n%s", r.Err, r.ErrTrace)
+	}
+	c.Set("model_bounds", map[string]any{"max_name_len": n, "names": r.Distinct})
+	return nil
+}
